@@ -314,7 +314,7 @@ where
 impl Check for C10 {
     fn id(&self) -> &'static str { "C10" }
     fn rule(&self) -> String {
-        "lanes: `miniscript` (4 contexts, String keys, every fragment incl. sugar and expr_raw_pkh; the written AST must be what is parsed, print->parse gives the same mirror AST and the same string; sugared and desugared spellings parse to equal ASTs with equal scripts), `descriptor` (all output types, hex / origin / xpub / wildcard / multipath keys, taproot trees; `{:#}` == string without checksum; printed checksum == own BIP380 implementation), `keys` (DescriptorPublicKey / DescriptorSecretKey strings with origins, h and ' markers, hardened steps, wildcards, multipath with repeated alternatives; mirror = derived Debug of the value), `policy` (Concrete with weights / Semantic), `wallet` (WalletPolicy from descriptor and from template), `strings` (grammar-aware mutations of valid strings: anything accepted must print to a string that re-parses to the same value and is a fixed point), `checksum` (1-2 arbitrary character substitutions, or <= 4 substitutions within the first charset group, in checksummed strings <= 500 chars: verify_checksum and Descriptor::from_str must reject). Non-trivial = values with >= 3 nodes or a key with origin/path/multipath; every substitution case; accepted mutants.".into()
+        "lanes: `miniscript` (4 contexts, String keys, every fragment incl. sugar and expr_raw_pkh; the written AST must be what is parsed, print->parse gives the same mirror AST and the same string; sugared and desugared spellings parse to equal ASTs with equal scripts), `descriptor` (all output types, hex / origin / xpub / wildcard / multipath keys, taproot trees; `{:#}` == string without checksum; printed checksum == own BIP380 implementation), `keys` (DescriptorPublicKey / DescriptorSecretKey strings with origins, h and ' markers, hardened steps, wildcards, multipath with repeated alternatives; mirror = derived Debug of the value), `policy` (Concrete with weights / Semantic), `wallet` (WalletPolicy from descriptor and from template), `strings` (grammar-aware mutations of valid strings: anything accepted must print to a string that re-parses to the same value and is a fixed point), `checksum` (the checksum Engine / verify_checksum on arbitrary strings over the whole BIP380 input alphabet vs the own implementation, with one substitution; in checksummed descriptors 1-2 arbitrary character substitutions, or <= 4 substitutions within the first charset group, in checksummed strings <= 500 chars: verify_checksum and Descriptor::from_str must reject). Non-trivial = values with >= 3 nodes or a key with origin/path/multipath; every substitution case; accepted mutants.".into()
     }
     fn lanes(&self, tier: Tier) -> Vec<(&'static str, usize, usize)> {
         match tier {
@@ -616,6 +616,44 @@ impl Check for C10 {
             }
             _ => {
                 // checksum
+                if src.chance(1, 5) {
+                    // the checksum engine on arbitrary strings over the whole BIP380 input
+                    // alphabet (descriptors only ever use a part of it) against the own
+                    // implementation of the specification
+                    let alphabet: Vec<char> = descsum::input_charset().chars().filter(|c| *c != '#').collect();
+                    let len = src.range(1, 60);
+                    let body: String = (0..len).map(|_| *src.pick(&alphabet)).collect();
+                    rep.desc = format!("[engine] {}", body);
+                    let own = match descsum::checksum(&body) {
+                        Some(c) => c,
+                        None => return Ok(()),
+                    };
+                    let mut eng = miniscript::descriptor::checksum::Engine::new();
+                    if let Err(e) = eng.input(&body) {
+                        return fail("checksum-engine-rejects-charset", format!("Engine::input rejects `{}`: {}", body, e));
+                    }
+                    let lib = eng.checksum();
+                    if lib != own {
+                        return fail("checksum-engine-differs", format!("Engine gives {} for `{}`, the BIP380 algorithm gives {}", lib, body, own));
+                    }
+                    let full = format!("{}#{}", body, own);
+                    if miniscript::descriptor::checksum::verify_checksum(&full).is_err() {
+                        return fail("checksum-verify-rejects-own", format!("verify_checksum rejects `{}`", full));
+                    }
+                    // any single substitution inside the body must be caught
+                    let mut v: Vec<char> = body.chars().collect();
+                    let i = src.below(v.len());
+                    let c = *src.pick(&alphabet);
+                    if c != v[i] {
+                        v[i] = c;
+                        let corrupted: String = v.into_iter().collect();
+                        if miniscript::descriptor::checksum::verify_checksum(&format!("{}#{}", corrupted, own)).is_ok() {
+                            return fail("checksum-misses-corruption/engine", format!("verify_checksum accepts `{}#{}` (one substitution of `{}`)", corrupted, own, body));
+                        }
+                    }
+                    rep.nontrivial_by(&body);
+                    return Ok(());
+                }
                 let kind = pick_kind(src);
                 let size = src.range(1, 8);
                 let d = gen::gen_desc(src, kind, &|ctx| {
